@@ -323,6 +323,7 @@ pub fn main(args: &Args) -> i32 {
         restart: 2,
         leave: 2,
         vanish: 2,
+        reinvite: true,
         ..Weights::default()
     };
     let spec = Spec {
